@@ -6,7 +6,7 @@ import builtins as _bi
 import z3
 
 from .. import core
-from ..core import (ExcObj, Maybe, PyRaise, SBool, SInt, SReal, SStr, Sym, Unsupported,
+from ..core import (ExcObj, Maybe, PyRaise, SBool, SInt, SReal, SStr, Sym, Unsupported, zint,
                     is_sym, mk_bool, mk_int, resolve_maybe, s_and, s_eq, s_ite, s_not, s_or,
                     truth, truthy)
 
@@ -21,6 +21,19 @@ def make(interp):
     def b_len(x):
         if isinstance(x, Maybe):
             x = resolve_maybe(x)
+        parts = getattr(x, 'parts', None)
+        if parts is not None and len(parts) == 1 and parts[0][0] == 'int' and parts[0][2] == '':
+            # PY-INT-STR-LEN: len(str(v)) for an integer v: the number of decimal digits (plus one for a minus sign); decided by
+            # case split on the magnitude (|v| < 10**40)
+            c = core.ctx()
+            c.lib_used.add('PY-INT-STR-LEN (len(str(v)) = number of decimal digits of |v|, +1 when negative)')
+            v = zint(parts[0][1])
+            neg = 1 if c.branch(v < 0) else 0
+            a = z3.If(v < 0, -v, v)
+            for d in range(1, 41):
+                if c.branch(a < 10 ** d):
+                    return d + neg
+            raise Unsupported('integer with more than 40 digits')
         if hasattr(x, '_len'):
             return x._len()
         if isinstance(x, Sym):
